@@ -31,6 +31,7 @@ EXPLANATION = (
     "five result columns are returned; the confidence code feeds the "
     "peptide-level table, its own columns, the Proteins object and the "
     "rng. Nothing is cached across calls. Also: read_fasta's maps, pairing and has_decoys flag (shared with C16b). "
+    "Also: the protein grouping rules (shared with C16d) are clauses of this property. "
     "NOT decided: which peptide wins "
     "for given data.")
 TECHNIQUE = ("def-use term matching + regex-AST classification of the "
@@ -56,6 +57,11 @@ def run(ctx):
     # flag are a clause of this property too (shared with C16b)
     from .c16 import _read_fasta
     _read_fasta(ctx, prog.func("mokapot.parsers.fasta.read_fasta"))
+    # ... and the protein *groups* the entries stand for: indistinguishable
+    # and subset proteins are merged, so that one group means one entry
+    # (shared with C16d)
+    from .c16 import _group
+    _group(ctx, prog.func("mokapot.parsers.fasta._group_proteins"))
     reach = prog.reachable([PP + "picked_protein"])
     check_no_cross_call_state(
         ctx, "C15-no-cross-call-state",
